@@ -35,6 +35,9 @@ CHECKS = {
  "C15": dict(technique="differential property testing (proptest grammar generator) of every LSP range against CPython tokenize/ast token positions in UTF-16 units",
              text="Generated-input search over position-stressing documents served by the real binary; oracle is the token table computed independently by CPython, plus structural LSP rules (inside document, start<=end, selection inside range, no duplicates). Exploration only.",
              note="trusted: CPython 3.11 tokenize/ast; the LSP client in engine/src/lsp.rs", ref="DESIGN.md 4 C15", engine="vengine"),
+ "C13": dict(technique="model-based + metamorphic property testing (proptest) on materialised directory trees: selection/closure model, stand-alone analysis equality, relocation invariance",
+             text="Generated-input search over directory trees, exclude sets and absolute placements; oracles: selection + import-closure model, per-file equality with a stand-alone analysis, identical root-relative results and CLI output across placements. Exploration only.",
+             note="trusted: the harness's model of file selection written from the documented ignore list and pytest's default patterns; tmpfs semantics of /dev/shm", ref="DESIGN.md 4 C13", engine="vengine"),
 }
 PENDING = {
 }
